@@ -754,6 +754,9 @@ class ExprMixin(object):
             has = field(obj.cls, name + '.has', z3.ArraySort(kty.sort(), BoolS))(obj.z)
             get = field(obj.cls, name + '.get', z3.ArraySort(kty.sort(), vty.sort()))(obj.z)
             return Dual(FnV(field(obj.cls, name, Fn)(obj.z)), SymDict(has, get, kty, vty))
+        if fty.kind == 'Set':
+            kty = fty.args[0]
+            return SymSet(field(obj.cls, name, z3.ArraySort(self.key_sort(kty), BoolS))(obj.z), kty)
         if fty.kind == 'Dict':
             kty, vty = fty.args
             has = field(obj.cls, name + '.has', z3.ArraySort(kty.sort(), BoolS))(obj.z)
@@ -2256,13 +2259,17 @@ class CallMixin(object):
 
     def construct(self, cv, args, kw, st, node):
         """ClassName(args): contract on __init__ if registered, else inline __init__ on a fresh record"""
-        decl = self.reg.classes.get(cv.name) or next((d_ for d_ in self.reg.classes.values() if d_.pyname == cv.name and d_.stateful), None)
+        decl = self.reg.classes.get(cv.name) or next((d_ for d_ in self.reg.classes.values() if d_.pyname == cv.name and (d_.stateful or (d_.external and self.reg.get('<ext>', '%s.__init__' % d_.name) is not None))), None)
         if decl is not None and decl.stateful:
             # library object with mutable abstract state: a cell holding one term; the assumed constructor contract describes the initial state
             ref = st.new_cell(Obj(fresh(ObjSort(decl.name), decl.name.lower()), decl.name))
             c0 = self.reg.get('<ext>', '%s.__init__' % decl.name)
             if c0 is None: raise Unsupported('stateful external class %s has no assumed constructor contract' % decl.name)
             return [(ref, s) for _, s in self.call_contract(c0, None, [ref] + list(args), kw, st, node)]
+        if decl is not None and decl.external and not decl.stateful and self.reg.get('<ext>', '%s.__init__' % decl.name) is not None:
+            # a class treated as a library object: its assumed constructor contract, a fresh object
+            o = Obj(fresh(ObjSort(decl.name), decl.name.lower()), decl.name)
+            return [(o, s) for _, s in self.call_contract(self.reg.get('<ext>', '%s.__init__' % decl.name), None, [o] + list(args), kw, st, node)]
         fi = cv.module.find_method(cv.name, '__init__')
         if self.is_exception(cv.name): return [(ExcV(cv.name, args), st)]
         c = self.reg.get(fi.file, fi.qualname) if fi else None
